@@ -19,7 +19,7 @@ func init() {
 			"(5) SSTableInfo.Overlaps is the closed-interval overlap test (table over boundary-touching ranges); the block builder rejects keys that are not strictly ascending; " +
 			"(6) the SSTable list is sorted by recency at load (C01 rule); (7) WAL retention never collects the current log file and deletes by sequence only when MaxSeq < MinSequenceKeep.",
 		NotDecided: "equality of merged views for all workloads (values); which selections a workload triggers; the interaction 'log file retired while its data is only in memory' (the code has no notion of flushed-up-to: remark, not verdict).",
-		Rules:      []func(*Ctx, *Reporter){ruleCompactSourceOrder, ruleMergePolicy, ruleCompactDecisionTable, ruleTombstoneFilterTable, ruleInputsOutliveOutputs, ruleOverlapsTable, ruleBuilderStrictOrder, ruleRecencyAtLoad, ruleRetention},
+		Rules:      []func(*Ctx, *Reporter){ruleCompactSourceOrder, ruleMergePolicy, ruleCompactDecisionTable, ruleTombstoneFilterTable, ruleInputsOutliveOutputs, ruleOverlapsTable, ruleBuilderStrictOrder, ruleRecencyAtLoad, ruleRetention, ruleUnionRange, ruleSortKeysFromSortedSlice},
 	})
 }
 
